@@ -338,7 +338,7 @@ func init() {
 			return
 		}
 		defer c.Close(nil)
-		pc := p.Conns()[0]
+		pc := p.FirstConn()
 		bodies := [][]byte{[]byte("ping-a"), {}, []byte("ping-c")}
 		for i, b := range bodies {
 			if pc.ws != nil {
